@@ -14,7 +14,7 @@ def run_against(patch, checks, scale, tier="quick"):
     repo = os.path.join(tmp, "repo")
     try:
         subprocess.check_call(["rsync", "-a", "--exclude", ".git", "/repo/", repo + "/"])
-        r = subprocess.run(["patch", "-p1", "-s", "--no-backup-if-mismatch", "-i", os.path.abspath(patch)], cwd=repo, capture_output=True)
+        r = subprocess.run(["patch", "-p1", "-s", "--fuzz=3", "--no-backup-if-mismatch", "-i", os.path.abspath(patch)], cwd=repo, capture_output=True)
         if r.returncode != 0:
             return {"patch": patch, "error": "patch does not apply: " + (r.stdout + r.stderr).decode()[-300:]}
         env = dict(os.environ, VERIF_REPO=repo, VERIF_SCALE=str(scale))
